@@ -245,6 +245,56 @@ static void canon(void *vs, char *b, size_t n)
 }
 static void teardown(void *vs) { st_t *s = vs; SPIF_LIST_DEL(s->l); free(s); }
 
+/* ---- large lists: counts around 127/128, 255/256 and 512, built by append, prepend or insert_at(middle); every position is read back,
+ * then insert_at far beyond the end (NULL placeholders), remove_at at both ends and the middle, reverse, iterator */
+static const int BIGN[] = { 126, 127, 128, 129, 254, 255, 256, 257, 511, 512, 513 };
+#define NBIGN ((int) (sizeof BIGN / sizeof BIGN[0]))
+static void big_decode(uint64_t idx, int *cls, int *n, int *how) { *cls = (int) (idx % 3); idx /= 3; *how = (int) (idx % 3); idx /= 3; *n = BIGN[idx % NBIGN]; }
+static void big_desc(uint64_t idx, void *ctx, char *b, size_t n_)
+{
+    int cls, n, how; (void) ctx; big_decode(idx, &cls, &n, &how);
+    snprintf(b, n_, "%s list of %d elements built by %s; get/index of every position, insert_at(count+3), remove_at(0, middle, last), reverse, iteration", CN[cls], n, how == 0 ? "append" : (how == 1 ? "prepend" : "insert_at(middle)"));
+}
+static int big_is(spif_obj_t o, int k) { char t[16]; snprintf(t, sizeof t, "e%05d", k); return o && SPIF_OBJ_IS_STR(o) && SPIF_STR(o)->s && !strcmp((char *) SPIF_STR(o)->s, t); }
+static void big_check(spif_list_t l, const int *model, int m, const char *what, const char *shape)
+{
+    if ((int) SPIF_LIST_COUNT(l) != m) { FAIL(site("count"), "model:return", shape, "%s: count=%d, model %d", what, (int) SPIF_LIST_COUNT(l), m); return; }
+    for (int i = 0; i < m; i++) { spif_obj_t g = SPIF_LIST_GET(l, i); if (model[i] < 0 ? g != NULL : !big_is(g, model[i])) { FAIL(site("get"), "model:element", shape, "%s: position %d of %d is wrong", what, i, m); return; } }
+    spif_iterator_t it = SPIF_LIST_ITERATOR(l); int k = 0;
+    while (it && k <= m && SPIF_ITERATOR_HAS_NEXT(it)) { spif_obj_t g = SPIF_ITERATOR_NEXT(it); if (k < m && (model[k] < 0 ? g != NULL : !big_is(g, model[k]))) { FAIL(site("iterator"), "model:order", shape, "%s: iteration position %d is wrong", what, k); break; } k++; }
+    if (it) SPIF_ITERATOR_DEL(it);
+    if (k != m) FAIL(site("iterator"), "model:count", shape, "%s: iteration yielded %d of %d", what, k, m);
+}
+static void big_case(uint64_t idx, void *ctx)
+{
+    int cls, n, how; (void) ctx; big_decode(idx, &cls, &n, &how);
+    CLS = cls;
+    char shape[64]; snprintf(shape, sizeof shape, "%d elements", n); mc_set_shape(shape);
+    spif_list_t l = new_list(); static int model[700]; int m = 0; char t[16];
+    for (int i = 0; i < n; i++) {
+        snprintf(t, sizeof t, "e%05d", i); spif_obj_t e = SPIF_OBJ(spif_str_new_from_ptr((spif_charptr_t) t));
+        if (how == 0) { SPIF_LIST_APPEND(l, e); model[m++] = i; }
+        else if (how == 1) { SPIF_LIST_PREPEND(l, e); memmove(model + 1, model, sizeof(int) * (size_t) m); model[0] = i; m++; }
+        else { int pos = m / 2; SPIF_LIST_INSERT_AT(l, e, pos); memmove(model + pos + 1, model + pos, sizeof(int) * (size_t) (m - pos)); model[pos] = i; m++; }
+    }
+    big_check(l, model, m, "after building", shape);
+    for (int i = 0; i < m; i += (m > 40 ? 7 : 1)) { snprintf(t, sizeof t, "e%05d", model[i]); spif_obj_t p = SPIF_OBJ(spif_str_new_from_ptr((spif_charptr_t) t));
+        if ((int) SPIF_LIST_INDEX(l, p) != i) { FAIL(site("index"), "model:return", shape, "index of the element at position %d is %d", i, (int) SPIF_LIST_INDEX(l, p)); SPIF_OBJ_DEL(p); break; }
+        SPIF_OBJ_DEL(p); }
+    { snprintf(t, sizeof t, "e%05d", 90000); SPIF_LIST_INSERT_AT(l, SPIF_OBJ(spif_str_new_from_ptr((spif_charptr_t) t)), m + 3); model[m] = model[m + 1] = model[m + 2] = -1; model[m + 3] = 90000; m += 4; }
+    big_check(l, model, m, "after insert_at(count+3)", shape);
+    { int pos[3] = { 0, m / 2, -1 };
+      for (int r = 0; r < 3; r++) { int at = pos[r] < 0 ? m - 1 : pos[r]; spif_obj_t g = SPIF_LIST_REMOVE_AT(l, pos[r] < 0 ? -1 : at);
+          if (model[at] < 0 ? g != NULL : !big_is(g, model[at])) FAIL(site("remove_at"), "model:return", shape, "remove_at(%d) of %d handed back the wrong element", pos[r], m);
+          if (g) SPIF_OBJ_DEL(g);
+          memmove(model + at, model + at + 1, sizeof(int) * (size_t) (m - at - 1)); m--; } }
+    big_check(l, model, m, "after three remove_at", shape);
+    SPIF_LIST_REVERSE(l); for (int i = 0, j = m - 1; i < j; i++, j--) { int x = model[i]; model[i] = model[j]; model[j] = x; }
+    big_check(l, model, m, "after reverse", shape);
+    SPIF_LIST_DEL(l);
+    mc_nontrivial();
+    mc_outcome((uint64_t) n * 9 + (uint64_t) how * 3 + (uint64_t) cls);
+}
 int main(int argc, char **argv)
 {
     mc_init("C02", argc, argv);
@@ -260,5 +310,6 @@ int main(int argc, char **argv)
         mc_sys sys = { CN[CLS], NOPS, op_name, fresh, enabled, apply, probe, canon, teardown, (int) mc_arg_int("lookahead", 1) };
         mc_e1_run(&sys, (int) mc_arg_int("depth", 40));
     }
+    if (!only) mc_e2_level("large", 513, (uint64_t) 3 * 3 * NBIGN, big_case, big_desc, NULL);
     return mc_finish();
 }
